@@ -226,6 +226,12 @@ Definition format_value (c : ctx_table) (v : Z) : name :=
   ct_fmt_prefix c ++ hex_padded (ct_fmt_zero c) (Z.to_nat (register_size c * ct_fmt_mul c)) v.
 Definition format_register (c : ctx_table) (rf : regfile) (n : name) : outcome name :=
   do x <- get_always c rf n; Ret (format_value c x).
+(* MinidumpContext::format_register: this variant's arm *)
+Definition md_format_register (c : ctx_table) (rf : regfile) (n : name) : outcome name :=
+  match ct_md_fmt c with
+  | None => format_register c rf n
+  | Some (p, z, d) => do x <- get_always c rf n; Ret (p ++ hex_padded z (Z.to_nat d) x)
+  end.
 (* the value a rendering denotes (inverse of hex_fixed on digit strings) *)
 Definition hex_digit_val (b : Z) : Z := if b <? 58 then b - 48 else b - 87.
 Definition hex_val (s : name) : Z := fold_left (fun a b => a * 16 + hex_digit_val b) s 0.
